@@ -283,7 +283,11 @@ def _const_bytes_through(body, o, depth=8):
     for _ in range(depth):
         k = op_const(o)
         if k is not None:
-            return const_bytes(k)
+            r = const_bytes(k)
+            if r is None and k.get("def"):
+                v = named_const_value(body.facts, k)
+                r = v if isinstance(v, bytes) else None
+            return r
         p = op_place(o)
         if p is None:
             return None
@@ -325,6 +329,9 @@ def _const_int_through(body, o, depth=8):
         if k is not None:
             if "refint" in k:
                 return int(k["refint"])
+            if const_int(k) is None and k.get("def"):
+                v = named_const_value(body.facts, k)
+                return v if isinstance(v, int) else None
             return const_int(k)
         p = op_place(o)
         if p is None:
@@ -639,10 +646,69 @@ def flag_reach(b, flag, assigns, start_bb, avoid=()):
     return res
 
 
+def enumerate_first_edges(b, start_bb):
+    """edges that are only taken in the first turn of an `enumerate()` loop (index == 0), for a start point inside that loop:
+    any path from the start back to the test has passed `next()` again, so the index is >= 1 there."""
+    out = set()
+    loops = b.loops()
+    for bi in range(b.n):
+        t = b.term(bi)
+        if t["k"] != "switch" or t["dty"] != "bool":
+            continue
+        d = b.def_rv(t["d"])
+        if not (d and d[2] == "rv" and d[3]["k"] == "bin" and d[3]["op"] in ("Eq", "Ne")):
+            continue
+        a, c = d[3]["a"], d[3]["b"]
+        k = op_const(b.resolve_copy(c))
+        if k is None or const_int(k) != 0:
+            continue
+        p = op_place(a)
+        if p is None:
+            continue
+        rp = b.root_place(p, through_names=True)
+        # (next(enumerate) as Some).0.0
+        src = b.single_def(rp["l"]) if rp["p"] else None
+        ok = False
+        if rp["p"] and len([e for e in rp["p"] if isinstance(e, dict) and "f" in e]) == 2 and isinstance(rp["p"][0], dict) and rp["p"][0].get("down") == "Some":
+            dd = [x for x in b.defs.get(rp["l"], []) if x[2] == "call"]
+            if len(dd) == 1 and "Enumerate" in (dd[0][3]["f"].get("full") or "") and (dd[0][3]["f"].get("fn") or "").endswith("Iterator::next"):
+                nb = dd[0][0]
+                # start must be inside a loop that contains the next() call
+                if any(nb in bl and start_bb in bl for bl in loops.values()):
+                    ok = True
+        if not ok:
+            continue
+        f = [x for v, x in t["tg"] if v == "0"]
+        first_edge = (bi, t["else"]) if d[3]["op"] == "Eq" else ((bi, f[0]) if f else None)
+        if first_edge:
+            out.add(first_edge)
+    return out
+
+
 def feasible_reach(b, start_bb, target_bb, avoid=()):
-    """can target be reached from the end of start_bb avoiding `avoid`, on a path that no constant-only bool flag contradicts?"""
+    """can target be reached from the end of start_bb avoiding `avoid`, on a path that no constant-only bool flag (and no
+    first-turn-of-enumerate test) contradicts?"""
     if not b.can_reach(start_bb, target_bb, avoid=avoid):
         return False
+    dead = enumerate_first_edges(b, start_bb)
+    if dead:
+        seen = set()
+        st = [start_bb]
+        hit = False
+        avoid_s = set(avoid)
+        first = True
+        while st:
+            x = st.pop()
+            for s2 in b.succ[x]:
+                if (x, s2) in dead or s2 in avoid_s:
+                    continue
+                if s2 == target_bb:
+                    hit = True
+                if s2 not in seen:
+                    seen.add(s2)
+                    st.append(s2)
+        if not hit:
+            return False
     for flag, assigns in bool_flags(b).items():
         if target_bb not in flag_reach(b, flag, assigns, start_bb, avoid):
             return False
@@ -735,3 +801,79 @@ def canon_callee(F, c):
 def local_calls(F, b, suffix):
     """crate-local call sites whose canonical callee name ends with `suffix`."""
     return [c for c in b.calls if c.local and canon_callee(F, c).endswith(suffix)]
+
+
+# ----------------------------------------------------------------------------- named constants
+
+_INT_SIZES = {"u8": 1, "i8": 1, "u16": 2, "i16": 2, "u32": 4, "i32": 4, "u64": 8, "i64": 8, "usize": 8, "isize": 8, "u128": 16, "i128": 16}
+
+
+def named_const_value(F, k):
+    """python value of a constant operand that refers to a named `const` item: int, bytes or list of ints."""
+    name = k.get("def")
+    if not name:
+        return None
+    c = F.consts.get(name)
+    if c is None:
+        return None
+    if "int" in c:
+        return int(c["int"])
+    if "bytes" in c:
+        return bytes.fromhex(c["bytes"])
+    ty = c.get("ty", "")
+    if "raw" in c:
+        raw = bytes.fromhex(c["raw"])
+        m = re.match(r"^\[(\w+); (\d+)\]$", ty)
+        if m and m.group(1) in _INT_SIZES:
+            sz = _INT_SIZES[m.group(1)]
+            n = int(m.group(2))
+            signed = m.group(1).startswith("i")
+            vals = [int.from_bytes(raw[i * sz:(i + 1) * sz], "little", signed=signed) for i in range(n)]
+            if m.group(1) == "u8":
+                return bytes(vals)
+            return vals
+    return None
+
+
+def const_value(F, body, o, depth=10):
+    """constant value behind an operand: through copies, borrows, tuple fields, constant indexing of constant arrays and
+    references to named constants."""
+    for _ in range(depth):
+        k = op_const(o)
+        if k is not None:
+            if "int" in k:
+                return int(k["int"])
+            if "refint" in k:
+                return int(k["refint"])
+            if "bytes" in k:
+                return bytes.fromhex(k["bytes"])
+            return named_const_value(F, k)
+        p = op_place(o)
+        if p is None:
+            return None
+        proj = [e for e in p["p"] if e != "*"]
+        d = body.single_def(p["l"])
+        if d is None:
+            ds = [x for x in body.defs.get(p["l"], []) if x[2] == "rv"]
+            d = ds[0] if len(ds) == 1 else None
+        if d is None or d[2] != "rv":
+            return None
+        rv = d[3]
+        if proj:
+            e = proj[0]
+            if len(proj) == 1 and isinstance(e, dict) and "cidx" in e and not e["end"]:
+                base = const_value(F, body, {"c": {"l": p["l"], "p": []}}, depth - 1)
+                if isinstance(base, (list, bytes)) and e["cidx"] < len(base):
+                    return base[e["cidx"]]
+                return None
+            if len(proj) == 1 and isinstance(e, dict) and "f" in e and rv["k"] == "agg" and e["f"] < len(rv["ops"]):
+                o = rv["ops"][e["f"]]
+                continue
+            return None
+        if rv["k"] in ("use", "cast"):
+            o = rv["o"]
+        elif rv["k"] == "ref":
+            o = {"c": rv["p"]}
+        else:
+            return None
+    return None
